@@ -845,7 +845,7 @@ func runC03Round3(c *Ctx) {
 	if nSend == 0 {
 		c.Undecided("Send methods in exporterhelper/internal", "-", "none found")
 	}
-	shareRule(c, "C04", runC04, []string{"C04.R6"}, "R11", "TS", "data sitting in a partially filled batch is never dropped (same rule as C04.R6, the pending-slot typestate of the batcher): it is flushed by size, by the timer or by the final flush of Shutdown", 12)
+	shareRule(c, "C04", runC04, []string{"C04.R6"}, "R11", "TS", "data sitting in a partially filled batch is never dropped (same rule as C04.R6, the pending-slot typestate of the batcher): it is flushed by size, by the timer or by the final flush of Shutdown", batcherFloor)
 	runC03Round4(c)
 }
 
